@@ -494,6 +494,46 @@ func ExecC10(plan *C10Plan, rc *RunCtx) *Violation {
 	}
 	end := len(ops)
 
+	// ---- token transfers: the utxo write set pays exactly the transfers that succeeded (to the payee,
+	// the rest back to the payer as change) out of the recorded inputs; a refused transfer pays nothing
+	{
+		paid := new(big.Int)
+		nOK := 0
+		faulted := false
+		for i := range ops {
+			if ops[i].Op == "xfer" && results[i].Faults > 0 {
+				faulted = true
+			}
+			if ops[i].Op == "xfer" && !results[i].Err && results[i].Panic == "" {
+				paid.Add(paid, big.NewInt(int64(ops[i].Amt)))
+				nOK++
+			}
+		}
+		inSum, toDest, toOthers := new(big.Int), new(big.Int), new(big.Int)
+		for _, in := range urw.Rset {
+			inSum.Add(inSum, new(big.Int).SetBytes(in.Amount))
+		}
+		for _, o := range urw.WSet {
+			amt := new(big.Int).SetBytes(o.Amount)
+			if string(o.ToAddr) == c10Dest {
+				toDest.Add(toDest, amt)
+			} else {
+				toOthers.Add(toOthers, amt)
+			}
+		}
+		if !faulted {
+			if toDest.Cmp(paid) != 0 {
+				return e.viol(end, "rwset", "utxo-wset-pays-what-was-not-transferred", "the utxo write set pays %s to the payee, the %d transfers that succeeded amount to %s (refused transfers pay nothing); %s", toDest, nOK, paid, c10UtxoString(urw))
+			}
+			if new(big.Int).Add(toDest, toOthers).Cmp(inSum) != 0 {
+				return e.viol(end, "rwset", "utxo-rwset-unbalanced", "the utxo write set pays out %s + %s change, the recorded inputs hold %s; %s", toDest, toOthers, inSum, c10UtxoString(urw))
+			}
+			if nOK > 0 {
+				rc.St.Probes["transfer-model-checked"]++
+			}
+		}
+	}
+
 	// ---- write set = final value of each written key
 	wm := map[string][]byte{}
 	for _, wd := range rw.WSet {
